@@ -125,7 +125,7 @@ Qed.
 (* ---------- specific steps ---------- *)
 Lemma strip_cr_cons c r : ends_cr (c :: r) = true -> c <> 13 -> exists r', strip_cr (c :: r) = c :: r'.
 Proof.
-  unfold ends_cr, strip_cr. cbn [rev]. destruct (rev r) as [|x t] eqn:R; cbn [app].
+  rewrite ends_cr_eq, strip_cr_eq. cbn [rev]. destruct (rev r) as [|x t] eqn:R; cbn [app].
   - destruct (N.eqb_spec c 13); [congruence|].
     destruct c as [|p]; [discriminate|]. repeat (destruct p as [p|p|]; try discriminate); congruence.
   - destruct x as [|p]; [discriminate|]. intros H NE.
@@ -139,7 +139,7 @@ Proof. intros [->| ->]; reflexivity. Qed.
 Lemma line_of_nonblank l : l <> [] -> l <> [13] -> is_nil (line_of l) = false.
 Proof.
   intros N1 N2. unfold line_of. destruct (ends_cr l) eqn:EC; [|destruct l; [congruence|reflexivity]].
-  unfold ends_cr, strip_cr in *. destruct (rev l) as [|x t] eqn:R; [discriminate|].
+  rewrite ends_cr_eq in EC. rewrite strip_cr_eq. destruct (rev l) as [|x t] eqn:R; [discriminate|].
   destruct (N.eqb_spec x 13) as [->|NE].
   - destruct t as [|y t']; [|cbn; destruct (rev t'); reflexivity].
     exfalso. apply N2. rewrite <- (rev_involutive l), R. reflexivity.
